@@ -47,7 +47,11 @@ TARGETS = ['scalar_f', 'scalar_i', 'scalar_u', 'scalar_d', 'scalar0_d', 'vector'
            # a writable object whose mask array cannot be written (a mask with fewer axes is broadcast by the constructor)
            'scalar_bmask', 'vector_bmask',
            # the base class with items and a derivative (zero derivatives are built by Qube.zeros)
-           'qube_items_d']
+           'qube_items_d',
+           # derivatives that were broadcast to the object's shape when inserted (read-only views: item assignment gives
+           # them arrays of their own first - seeded change C19-J skipped the denominator check on that path), and units
+           # that carry an angle (seeded change C19-I: units differing only in the angle exponent were accepted)
+           'scalar_bderiv', 'scalar_deg']
 
 
 def make_target(name, Pm, readonly=False):
@@ -92,6 +96,11 @@ def make_target(name, Pm, readonly=False):
     elif name == 'qube_items_d':
         x = Pm.Qube(np.arange(6.).reshape(3, 2) + 1., A([False, True, False]), nrank=1)
         x.insert_deriv('t', Pm.Qube(np.ones((3, 2)), nrank=1))
+    elif name == 'scalar_bderiv':
+        x = Pm.Scalar(A([1., 2., 3., 4.]), A([False, True, False, False]))
+        x.insert_deriv('t', Pm.Scalar(2.5))
+    elif name == 'scalar_deg':
+        x = Pm.Scalar(A([10., 20., 30.]), units=Pm.Units.DEG)
     elif name == 'scalar_bmask':
         x = Pm.Scalar(np.arange(6.).reshape(2, 3) + 1., A([False, True, False]))
     elif name == 'vector_bmask':
@@ -189,7 +198,11 @@ def apply_fault(arg, fault, target, op, Pm, want_shape):
             if x.units is None:
                 return arg, False
             a = arg.without_units().copy()
-            a.set_units(Pm.Units.SEC)
+            # another dimension, or - every other time - the same one times an angle (rad is a unit of its own)
+            other = Pm.Units.SEC
+            if (len(op) + len(type(x).__name__) + len(x.shape)) % 2:
+                other = (x.units * Pm.Units.RAD) if x.units.exponents[2] == 0 else Pm.Units.UNITLESS
+            a.set_units(other)
             return a, True
         return arg, False
     if fault == 'numer':
